@@ -39,13 +39,14 @@ def main():
             mech = ', '.join(fin['checks'][own].get('mechanisms', [])[:2])
         others = sorted(set(c for c in list(caught) + m.get('caught_by', [])
                             if c != own))
-        rows.append((m['name'], files, 'yes' if m.get('valid') else 'NO',
+        rows.append((m['name'], str(m.get('round', 1)), files,
+                     'yes' if m.get('valid') else 'NO',
                      m.get('first_run', ''),
                      'caught' if own in caught else 'MISSED', mech,
                      ','.join(others), m.get('strengthened', '')))
-    print('| seed | file | valid | first run | final (own check) | '
+    print('| seed | round | file | valid | first run | final (own check) | '
           'mechanism reported | also caught by | what was strengthened |')
-    print('|---|---|---|---|---|---|---|---|')
+    print('|---|---|---|---|---|---|---|---|---|')
     for r in rows:
         print('| ' + ' | '.join(r) + ' |')
 
